@@ -668,6 +668,7 @@ class Manager:
 
         for event_handler in event_handlers:
             event.handler = event_handler
+            value = None
             try:
                 value = event_handler(event, *eargs, **ekwargs) if event_handler.event else event_handler(*eargs, **ekwargs)
             except KeyboardInterrupt:
